@@ -117,7 +117,56 @@ func hashChild(file string) int {
 var lblNames = []string{"env", "team", "zone", "__meta_role", "__meta_pod", "app", "bad-name", "1digit", "x.y"}
 var lblVals = []string{"prod", "dev", "a", "b", "", "ünï", "x y", "q\"uote"}
 
+// genOrderSensitive: a relabel program whose result depends on the order in which the labels are
+// presented to it (a labelmap that maps several discovered labels onto one name - the last in label
+// order wins), on targets that already carry job / scheme / path so that nothing else touches them
+func genOrderSensitive(r *Rng) *LCase {
+	var b strings.Builder
+	b.WriteString("- job_name: j\n  relabel_configs:\n")
+	fmt.Fprintf(&b, "  - regex: __meta_(%s)_label_(.+)\n    replacement: $2\n    action: labelmap\n", r.PickS("pod|service", "a|b|c", "[a-z]+"))
+	if r.Chance(40) {
+		b.WriteString("  - source_labels: [app]\n    target_label: copy\n")
+	}
+	c := &LCase{Config: b.String()}
+	ng := 1 + r.Intn(2)
+	for g := 0; g < ng; g++ {
+		grp := LGroup{Labels: map[string]string{}}
+		base := map[string]string{"job": "given", "__scheme__": r.PickS("http", "https"), "__metrics_path__": r.PickS("/metrics", "/m")}
+		inGroup := r.Chance(50)
+		if inGroup {
+			for k, v := range base {
+				grp.Labels[k] = v
+			}
+		}
+		nt := 1 + r.Intn(3)
+		for t := 0; t < nt; t++ {
+			tl := LTarget{Labels: map[string]string{"__address__": fmt.Sprintf("10.1.%d.%d:%d", g, t, r.PickI(80, 9100))}}
+			if !inGroup {
+				for k, v := range base {
+					tl.Labels[k] = v
+				}
+			}
+			srcs := []string{"pod", "service", "a", "b", "c"}
+			vals := []string{"gateway", "gateway-v2", "edge", "core", "x"}
+			for i, sname := range srcs {
+				if r.Chance(70) {
+					tl.Labels["__meta_"+sname+"_label_app"] = vals[(i+r.Intn(2))%len(vals)]
+				}
+				if r.Chance(30) {
+					tl.Labels["__meta_"+sname+"_label_tier"] = vals[r.Intn(len(vals))]
+				}
+			}
+			grp.Targets = append(grp.Targets, tl)
+		}
+		c.Groups = append(c.Groups, grp)
+	}
+	return c
+}
+
 func genLabelsCase(r *Rng) *LCase {
+	if r.Chance(12) {
+		return genOrderSensitive(r)
+	}
 	var b strings.Builder
 	b.WriteString("- job_name: j\n")
 	if r.Chance(40) {
@@ -215,7 +264,7 @@ func encBytes(w *ints, s string) {
 
 func runLabelsHash(a Args) *Result {
 	res := newResult("labels", a.seed, a.tier)
-	res.Rule = "random scrape configs (scheme, path, params incl. empty lists, relabel programs: replace/keep/drop/labelmap/labeldrop/hashmod) x target groups (addresses with and without port, IPv6, group vs target labels, invalid label names, duplicates, address-less targets) through the real TargetsDiscovery; each active target's hash is recomputed in Lean from kvass' own final labels and URL; hashes are compared across 3 rounds, target/label permutations, group/target label splits and a child process; non-trivial = a target survived relabeling; distinct by (labels, url)"
+	res.Rule = "random scrape configs (scheme, path, params incl. empty lists, relabel programs: replace/keep/drop/labelmap/labeldrop/hashmod, plus order-sensitive label maps on targets that already carry job/scheme/path) x target groups (addresses with and without port, IPv6, group vs target labels, invalid label names, duplicates, address-less targets) through the real TargetsDiscovery; each active target's hash is recomputed in Lean from kvass' own final labels and URL; hashes are compared across 6 rounds, target/label permutations, group/target label splits and a child process; non-trivial = a target survived relabeling; distinct by (labels, url)"
 	rng := NewRng(a.seed)
 	n := 250
 	if a.tier == "thorough" {
@@ -248,7 +297,7 @@ func runLabelsHash(a Args) *Result {
 			res.count("config_rejected")
 			continue
 		}
-		rounds, _, err := discover(c, 3)
+		rounds, _, err := discover(c, 6)
 		if err != nil {
 			res.Notes = append(res.Notes, err.Error())
 			continue
